@@ -6,7 +6,7 @@
    item count, stop or exception anywhere) and every reachable state, i.e. every
    schedule of enabled steps. *)
 From Coq Require Import List Bool Arith.
-From Baize Require Import C06.Model C06.Proofs.
+From Baize Require Import C06.Model C06.Proofs C06.ProofsPool.
 Import ListNotations.
 
 (* In every reachable state in which the response has not ended and released
@@ -107,6 +107,34 @@ Theorem delivered_is_prefix : forall prod : producer,
        (e_mfinal (e_m s) = false -> e_r s = RNext -> nexts (e_g s) = d + inq (e_q s))).
 Proof. exact delivered_is_prefix_proof. Qed.
 
+(* An exhausted thread pool (more event streams open than SendEventResponse.thread_pool has workers,
+   the others idle): the relay's job stays queued — wpp = PPend, and step LP is not available.  With the
+   job still queued (relay as repaired or as it was): in every reachable state the consumer's own step is
+   available unless the response has ended, i.e. it never waits for the job; in ANY state a response closed at a
+   yield ends after at most six consumer steps and no relay step, with the queued job cancelled
+   (nothing left in the pool), the generator untouched and nothing more written; and until it is closed
+   the stream only pings. *)
+Theorem pool_exhausted : forall (fixed : bool) (prod : producer) (s : wstate),
+  wpp s = PPend ->
+  (reachable (stepW fixed prod) w_init s -> w_final s = false ->
+     exists s', stepC s = Some s' /\ (wpp s' = PPend \/ wpp s' = PCancelled /\ w_final s' = true)) /\
+  (wcp s = CYield ->
+     let s' := run (stepW fixed prod) [LX; LC; LC; LC; LC; LC; LC] s in
+     wcp s' = CEnd OClosed /\ wpp s' = PCancelled /\ wg s' = wg s /\ wout s' = wout s) /\
+  (wcp s = CLoopDone -> wq s = None ->
+     let s' := run (stepW fixed prod) [LC; LC] s in
+     wcp s' = CYield /\ wout s' = wout s ++ [ChPing] /\ wpp s' = PPend /\ wq s' = None).
+Proof.
+  intros fixed prod s Hp. split; [|split].
+  - intros Hr. exact (pool_exhausted_consumer_free_proof fixed prod s Hr Hp).
+  - exact (pool_exhausted_close_returns_proof fixed prod s Hp).
+  - exact (pool_exhausted_pings_proof fixed prod s Hp).
+Qed.
+
+(* non-vacuity: the initial state has the job queued and the consumer at its loop head *)
+Example pool_exhausted_example : wpp w_init = PPend /\ wcp w_init = CLoopDone /\ wq w_init = None.
+Proof. repeat split. Qed.
+
 (* non-vacuity: a closed WSGI event stream and a disconnected ASGI event stream that
    have ended are reachable *)
 Example closed_state_reachable :
@@ -125,3 +153,4 @@ Print Assumptions close_terminates.
 Print Assumptions generator_closed_once.
 Print Assumptions no_task_left.
 Print Assumptions delivered_is_prefix.
+Print Assumptions pool_exhausted.
